@@ -431,6 +431,42 @@ fn build_families(quick: bool) -> Vec<Family> {
             });
         }
     }
+    // structure-aware: SZX files whose RAMP chunks carry well-formed page data of every interesting
+    // size (stored, and valid zlib streams inflating to that size), valid and invalid page numbers
+    for m128 in [false, true] {
+        let sizes: Vec<usize> = vec![0, 1, 2, 16383, 16384, 16385, 20000, 32768, 65535, 65536, 70000, 200000];
+        let pages: Vec<u8> = vec![0, 2, 5, 7, 8, 255];
+        let n = sizes.len() * pages.len() * 2;
+        fams.push(Family {
+            name: format!("szx-ramp-page-sizes:{}", if m128 { 128 } else { 48 }),
+            count: n,
+            make: Box::new(move |i| {
+                let compressed = i % 2 == 1;
+                let page = pages[(i / 2) % pages.len()];
+                let size = sizes[i / 2 / pages.len()];
+                let mut s = MState::new(m128, 2);
+                s.regs.pc = 0x9000;
+                s.regs.iff1 = false;
+                s.regs.iff2 = false;
+                s.banks[2][0x1000..0x1003].copy_from_slice(&[0xF3, 0x18, 0xFE]);
+                // a valid file, then one extra RAMP chunk appended
+                let mut f = szx(&s, &SzxOpts { compressed, ..SzxOpts::default() });
+                let payload: Vec<u8> = (0..size).map(|k| (k * 7 + 1) as u8).collect();
+                let mut d = Vec::new();
+                d.extend_from_slice(&(compressed as u16).to_le_bytes());
+                d.push(page);
+                if compressed {
+                    d.extend_from_slice(&miniz_oxide::deflate::compress_to_vec_zlib(&payload, 1));
+                } else {
+                    d.extend_from_slice(&payload);
+                }
+                f.extend_from_slice(b"RAMP");
+                f.extend_from_slice(&(d.len() as u32).to_le_bytes());
+                f.extend_from_slice(&d);
+                spec(Entry::Szx, m128, f, format!("szx-ramp:{}:page{}:size{}", if compressed { "zlib" } else { "stored" }, page, size))
+            }),
+        });
+    }
     for (entry, m128, name, data) in seeds() {
         let len = data.len();
         // (b) every prefix
